@@ -147,6 +147,55 @@ func TestDriveC12(t *testing.T) {
 		InstallEnv(c.Env)
 		rec.Emit(Ev{"ev": "Seq", "label": label + "/writeOnly", "map": pairs(m), "reqs": woReqs, "regs": woRegs, "pokes": []int{}})
 	}
+	// where the controller takes its PWM map from (the real computePwmMap of a controller on a real database): a map in
+	// the fan's configuration, a map stored by an earlier run (for the same fan id), both (the configuration was edited
+	// after the first run), or neither (identity register: the sweep finds the identity)
+	if shard == 0 {
+		sparse := map[int]int{0: 0, 3: 1, 5: 2, 8: 3, 128: 60, 255: 120}
+		ident := map[int]int{}
+		coarse := map[int]int{}
+		for v := 0; v <= 255; v++ {
+			ident[v] = v
+			coarse[v] = v / 2 * 2
+		}
+		for _, kind := range []string{"hwmon", "file", "cmd"} {
+			for _, cfgMap := range []map[int]int{nil, sparse} {
+				for _, stored := range []map[int]int{nil, ident, coarse} {
+					if kind == "cmd" && os.Getenv("VERIF_NOCMD") != "" {
+						continue
+					}
+					sp := FanSpec{Kind: kind, HasRpm: false, HasMode: false, N: 10, Alg: AlgSpec{T: "direct"}, CfgMap: cfgMap}
+					cs := NewCtl(rec, sp, 40, 1, 0)
+					if stored != nil {
+						must(cs.Pers.SaveFanPwmMap(cs.Fan.GetId(), stored))
+					}
+					cs.C.VerifSetPwmMap(nil)
+					errc := cs.C.VerifComputePwmMap()
+					got := cs.C.VerifState().PwmMap
+					cs.C.VerifSetPwmMap(got) // (Run: updateDistinctPwmValues)
+					// ... and what is written for a few requests afterwards
+					reqs, regs := []int{}, []int{}
+					for _, req := range []int{0, 1, 4, 6, 7, 9, 64, 128, 200, 255} {
+						w := -1000
+						if err := cs.C.VerifSetPwm(req); err == nil {
+							w = cs.reg("pwm")
+						}
+						reqs, regs = append(reqs, req), append(regs, w)
+					}
+					e := Ev{"ev": "MapSrc", "kind": kind, "cfg": [][2]int{}, "stored": [][2]int{}, "got": pairs(got), "err": errc != nil, "reqs": reqs, "regs": regs}
+					if cfgMap != nil {
+						e["cfg"] = pairs(cfgMap)
+					}
+					if stored != nil {
+						e["stored"] = pairs(stored)
+					}
+					rec.Emit(e)
+					cs.Close()
+				}
+			}
+		}
+		InstallEnv(c.Env)
+	}
 	// exhaustive: all maps over a key universe (incl. adjacent keys, 0 and 255), outputs from 3 values
 	positions := []int{0, 1, 2, 100, 101, 128, 200, 254, 255, 50, 51, 150}[:universe]
 	sort.Ints(positions)
